@@ -24,6 +24,10 @@ type c18Headers struct {
 	fail  bool
 	slot  phase0.Slot
 	asked string
+	// the fetched block's parent (any root) and the slot of that parent block (any earlier slot:
+	// there may be empty slots in between)
+	parent     phase0.Root
+	parentSlot phase0.Slot
 	// the rest of the environment the constructor was given
 	blocks *c18Blocks
 	events *c18Events
@@ -87,7 +91,7 @@ func (h *c18Headers) BeaconBlockHeader(_ context.Context, opts *api.BeaconBlockH
 	}
 	return &api.Response[*apiv1.BeaconBlockHeader]{
 		Data: &apiv1.BeaconBlockHeader{
-			Header: &phase0.SignedBeaconBlockHeader{Message: &phase0.BeaconBlockHeader{Slot: h.slot}},
+			Header: &phase0.SignedBeaconBlockHeader{Message: &phase0.BeaconBlockHeader{Slot: h.slot, ParentRoot: h.parent}},
 		},
 		Metadata: map[string]any{},
 	}, nil
@@ -97,6 +101,8 @@ func (h *c18Headers) BeaconBlockHeader(_ context.Context, opts *api.BeaconBlockH
 // distinct roots.
 func c18Cache(n int) (*Service, []phase0.Root, []phase0.Slot, *c18Headers) {
 	h := &c18Headers{fail: vnd.Bool("fetch.fail"), slot: phase0.Slot(vnd.U64("fetch.slot"))}
+	h.parent, h.parentSlot = phase0.Root(vnd.Root("fetch.parent")), phase0.Slot(vnd.U64("fetch.parent-slot"))
+	vnd.Assume(h.parentSlot < h.slot || h.slot == 0)
 	s := c18New(vstub.NewChainTime(64), h)
 	// an arbitrary pre-state of the cache
 	roots := make([]phase0.Root, n)
@@ -143,6 +149,15 @@ func VerifC18_Lookup() {
 		st, stored := s.blockRootToSlot[q]
 		vnd.Assert(stored && st == h.slot, "C18.missok.stored")
 		vnd.Assert(h.asked == q.String(), "C18.missok.asked-for-root")
+	}
+	// whatever else the lookup put into the cache is right too: the fetched block's parent, if it
+	// is there now and was not before, is there with the parent block's own slot
+	known := h.parent == q
+	for i := range roots {
+		known = known || roots[i] == h.parent
+	}
+	if pst, stored := s.blockRootToSlot[h.parent]; stored && !known {
+		vnd.Assert(pst == h.parentSlot, "C18.lookup.entries-added-are-right")
 	}
 	// other entries untouched
 	for i := range roots {
